@@ -1,4 +1,4 @@
-CONSTANTS Kinds = {"M","O","CM","CO"} MaxLog = 6 MaxPush = 7 SliceLim = 3 ChanLim = 2 UseSeq = TRUE Tracked0 = TRUE MaxCrash = 0 Fixed = TRUE SimDepth = 16
+CONSTANTS Kinds = {"M","O","CM","CO"} MaxLog = 6 MaxPush = 7 SliceLim = 3 ChanLim = 2 UseSeq = TRUE Tracked0 = TRUE MaxCrash = 0 Fixed = TRUE TooLongAt = 0 ChanTooLongAt = 0 DiffLimit = 0 ChanTLPush = FALSE SimDepth = 16
 INIT Init
 NEXT NextPairs
 VIEW View
